@@ -43,3 +43,54 @@ Fixpoint ty_lookup (l : list (val * acc)) (v : val) : option acc :=
   match l with [] => None | (k, a) :: l' => if Nat.eqb k v then Some a else ty_lookup l' v end.
 
 Definition sty_prog (p : prog) : bool := sty_block (ty_lookup (prog_tys p)) (p_body p).
+
+(* ---- side conditions of [ainfer_certified_all] (Proofs/AccCertProofs.v), all decidable ------------- *)
+(* the state values that receive a table entry *)
+Fixpoint stmt_sdefs (s : stmt) : list val :=
+  let blk := fix blk (b : list stmt) : list val := match b with [] => [] | x :: b' => stmt_sdefs x ++ blk b' end in
+  match s with
+  | SSetup _ o _ _ => [o]
+  | SFor _ _ _ _ its rs body ys =>
+      map si_arg (state_iters its ys rs) ++ blk body ++ map si_res (state_iters its ys rs)
+  | SIf _ rs th thy el ely => blk th ++ blk el ++ map sr_res (state_results rs thy ely)
+  | _ => []
+  end.
+Definition block_sdefs (b : block) : list val := flat_map stmt_sdefs b.
+
+(* SSA scoping, as far as the certificate needs it: a value bound by a statement is not an operand
+   of a setup that precedes it in program order ([V] = the setup operands seen so far) *)
+Definition disj (ds V : list val) : bool := forallb (fun d => negb (mem_nat d V)) ds.
+
+Fixpoint scoped_stmt (V : list val) (s : stmt) {struct s} : option (list val) :=
+  let blk := fix blk (V : list val) (b : list stmt) {struct b} : option (list val) :=
+    match b with
+    | [] => Some V
+    | x :: b' => match scoped_stmt V x with Some V1 => blk V1 b' | None => None end
+    end in
+  match s with
+  | SPure d _ => if disj [d] V then Some V else None
+  | SCall _ _ _ ds _ => if disj ds V then Some V else None
+  | SSetup _ _ _ fs => Some (map snd fs ++ V)
+  | SFor iv _ _ _ its rs body _ => if disj (iv :: map it_arg its ++ rs) V then blk V body else None
+  | SIf _ rs th _ el _ =>
+      match blk V th with
+      | Some V1 => match blk V1 el with
+                   | Some V2 => if disj (map fst rs) V2 then Some V2 else None
+                   | None => None
+                   end
+      | None => None
+      end
+  | _ => Some V
+  end.
+Fixpoint scoped_block (V : list val) (b : block) : option (list val) :=
+  match b with
+  | [] => Some V
+  | x :: b' => match scoped_stmt V x with Some V1 => scoped_block V1 b' | None => None end
+  end.
+
+(* well-threaded: the link clauses of the certificate alone (the table plays no role) *)
+Definition wt_prog (p : prog) : bool := wf_prog (fun _ => []) p.
+
+Definition cert_side (p : prog) : bool :=
+  wt_prog p && sty_prog p && nodup_nat (block_sdefs (p_body p))
+  && match scoped_block [] (p_body p) with Some _ => true | None => false end.
